@@ -45,7 +45,13 @@ def one_case(job):
         os.makedirs(d)
         desc, data, pics = common.encoder_stream(rng)
         kind = "conformant"
-        if rng.random() < 0.55:
+        r0 = rng.random()
+        if r0 < 0.12:
+            # an error located at the very start of the file: wrong (non-zero) next_parse_offset in the first parse_info
+            kind = "first-npo-wrong"
+            wrong = rng.choice([14, 15, len(data), 13 + rng.randrange(1, 40)])
+            data = data[:5] + wrong.to_bytes(4, "big") + data[9:]
+        elif r0 < 0.6:
             kind, data = common.mutate(data, rng)
         res["kind"] = kind
         res["config"] = desc
@@ -56,7 +62,7 @@ def one_case(job):
         pattern = rng.choice(BAD_PATTERNS if bad_pattern else PATTERNS)
         res["pattern"] = pattern
         try:
-            verdict, exc, out_pics, _ = common.validate(data)
+            verdict, exc, out_pics, vstate = common.validate(data)
         except common.OutOfScope:
             res["status"] = "out-of-scope"
             return res
@@ -100,6 +106,17 @@ def one_case(job):
                 res["problems"].append(("validator-no-located-explanation", out[:200]))
             elif not (0 <= int(m.group(1)) <= 8 * len(data) + 8):
                 res["problems"].append(("validator-offset-outside-file", "offset %s, file %d bytes" % (m.group(1), len(data))))
+            else:
+                # the location must be the one the decoder reports: the error's own offending offset
+                # when it has one (0 is a legitimate offset), else the read position at the failure
+                from vc2_conformance.bitstream.io import to_bit_offset
+                from vc2_conformance.decoder.io import tell as dtell
+                exp = exc.offending_offset()
+                if exp is None:
+                    exp = to_bit_offset(*dtell(vstate))
+                if int(m.group(1)) != exp:
+                    res["problems"].append(("validator-reports-wrong-location", "reported bit offset %s, decoder says %d (%s)" % (
+                        m.group(1), exp, verdict)))
             if "Details" not in out or "bitstream viewer" not in out:
                 res["problems"].append(("validator-explanation-incomplete", out[:200]))
         # files: one pair per decoded picture (also for the pictures decoded before an error), numbered from 0
